@@ -19,6 +19,20 @@ func c20w(cat, form, ctx string) json.RawMessage {
 	return rawJSON(&C20Case{Cat: cat, Form: form, Ctx: ctx, Import: "plain"})
 }
 
+// specD28: a struct with a blank field built by the all-fields form.
+func specD28() *Spec {
+	s := &Spec{ImportAlias: map[int]string{}, Pkgs: []Pkg{{Name: "app"}}}
+	fa := Named(addFreshStruct(s, 0, "FA"))
+	fb := Named(addFreshStruct(s, 0, "FB"))
+	s.Decls = append(s.Decls, Decl{Pkg: 0, Name: "S", Form: "struct", Fields: []SField{{Name: "A", T: fa}, {Name: "_", T: fb}}})
+	st := Named(len(s.Decls) - 1)
+	pa := addItem(s, Item{Kind: "func", Name: "ProvideFA", Out: fa})
+	si := addItem(s, Item{Kind: "struct", Out: st, Star: true})
+	s.Injectors = []Injector{{Name: "Inject", Out: st, Args: []Ref{RItem(pa), RItem(si)}}}
+	refreshPlan(s)
+	return s
+}
+
 // specD27: two injectors; the second has a parameter named like the provider
 // function both build lists spell.
 func specD27() *Spec {
@@ -162,6 +176,7 @@ func WriteFindings(commits map[string]string) error {
 		fixed("D26", "C20", "D26", "wire.InterfaceValue(new(I), func() I { _ = 1; return C{} }()) as the source of the injector's result: nil pointer dereference in the accessibility check (the blank identifier has no object)", "C20 wire crashed",
 			rawJSON(&C20Case{Cat: "ivalue-needed", Form: "new(I), func() I { _ = 1; return C{} }()", Ctx: "needed", Import: "plain"})),
 		fixed("D27", "C06", "D27", "func InitB(NewBar Other) Foo { wire.Build(NewFoo, NewBar) } after an injector that uses the function NewBar: the parameter was mistaken for the package-level function (object cache keyed by name) and the missing *Bar silently filled by a provider the build list does not name", "C06 program the documented rules reject was accepted", rawJSON(specD27())),
+		fixed("D28", "C12", "D28", "wire.Struct(new(S), \"*\") for struct{ A FA; _ FB }: the blank field was treated as an input (a provider for FB was demanded; with one, S{A: a, _: b} was emitted, which does not compile), and \"_\" was accepted as a field name by wire.Struct and wire.FieldsOf", "C12 program the documented rules accept was rejected", rawJSON(specD28())),
 		known("D15", "C20", "injector body with extra statements: the invalid-injector diagnostic of `wire gen` carries no file:line:col position (its text is pinned by golden file InvalidInjector of the repository's suite, so a repair would change an expected output)", "C20 failure without a positioned diagnostic",
 			rawJSON(&C20Case{Cat: "injector", Form: "func Inject() S { y := 1; _ = y; wire.Build(NewS); return S{} }", Import: "plain"})),
 		known("D20", "C13", "wire.InterfaceValue(new(I), f()) is accepted and the call is copied into the generated package-level variable (the repository's golden test InterfaceValue uses strings.NewReader(...) and pins acceptance)", "C13",
